@@ -331,106 +331,40 @@ impl Number {
 }
 
 impl Eq for Number {}
-impl PartialEq for Number {
-    fn eq(&self, rhs: &Self) -> bool {
+impl Number {
+    /// The exact rational value of this number, or None for a float that is
+    /// infinite or NaN.
+    fn to_big_rational(&self) -> Option<BigRational> {
         match self {
-            Number::Fixnum(lhs) => match rhs {
-                Number::Fixnum(rhs) => lhs == rhs,
-                Number::BigInt(rhs) => BigInt::from(*lhs) == **rhs,
-                Number::Float(rhs) => *lhs as f64 == *rhs,
-                Number::Rational(rhs) => {
-                    if lhs.to_i32().is_some() {
-                        Rational32::from_integer(*lhs as i32) == *rhs
-                    } else {
-                        false
-                    }
-                }
-            },
-            Number::BigInt(lhs) => match rhs {
-                Number::Fixnum(rhs) => **lhs == BigInt::from(*rhs),
-                Number::BigInt(rhs) => lhs == rhs,
-                Number::Float(rhs) => lhs.to_f64().unwrap() == *rhs,
-                Number::Rational(rhs) => match lhs.to_i32() {
-                    Some(lhs) => Rational32::from_integer(lhs) == *rhs,
-                    None => false,
-                },
-            },
-            Number::Float(lhs) => match rhs {
-                Number::Fixnum(rhs) => *lhs == *rhs as f64,
-                Number::Float(rhs) => lhs == rhs,
-                Number::BigInt(rhs) => *lhs == rhs.to_f64().unwrap(),
-                Number::Rational(rhs) => match rhs.to_f64() {
-                    Some(rhs) => *lhs == rhs,
-                    None => false,
-                },
-            },
-            Number::Rational(lhs) => match rhs {
-                Number::Fixnum(rhs) => {
-                    if rhs.to_i32().is_some() {
-                        Rational32::from_integer(*rhs as i32) == *lhs
-                    } else {
-                        false
-                    }
-                }
-                Number::Float(rhs) => match lhs.to_f64() {
-                    Some(lhs) => lhs == *rhs,
-                    None => false,
-                },
-                Number::BigInt(rhs) => match rhs.to_i32() {
-                    Some(rhs) => *lhs == Rational32::from_integer(rhs),
-                    None => false,
-                },
-                Number::Rational(rhs) => lhs == rhs,
-            },
+            Number::Fixnum(num) => Some(BigRational::from_integer(BigInt::from(*num))),
+            Number::BigInt(num) => Some(BigRational::from_integer((**num).clone())),
+            Number::Rational(num) => Some(BigRational::new(
+                BigInt::from(*num.numer()),
+                BigInt::from(*num.denom()),
+            )),
+            Number::Float(num) => BigRational::from_float(*num),
         }
     }
 }
 
+impl PartialEq for Number {
+    fn eq(&self, rhs: &Self) -> bool {
+        self.partial_cmp(rhs) == Some(Ordering::Equal)
+    }
+}
+
 impl PartialOrd for Number {
+    /// Numbers compare by their mathematical value, whatever representation
+    /// carries them. NaN is unordered.
     fn partial_cmp(&self, rhs: &Self) -> Option<Ordering> {
-        match self {
-            Number::Fixnum(lhs) => match rhs {
-                Number::Fixnum(rhs) => lhs.partial_cmp(rhs),
-                Number::BigInt(rhs) => BigInt::from(*lhs).partial_cmp(&**rhs),
-                Number::Float(rhs) => (*lhs as f64).partial_cmp(rhs),
-                Number::Rational(rhs) => {
-                    if lhs.to_i32().is_some() {
-                        Rational32::from_integer(*lhs as i32).partial_cmp(rhs)
-                    } else {
-                        Some(Ordering::Greater)
-                    }
-                }
-            },
-            Number::BigInt(lhs) => match rhs {
-                Number::Fixnum(rhs) => (**lhs).partial_cmp(&BigInt::from(*rhs)),
-                Number::BigInt(rhs) => (**lhs).partial_cmp(&**rhs),
-                Number::Float(rhs) => (**lhs).to_f64().unwrap().partial_cmp(rhs),
-                Number::Rational(rhs) => match lhs.to_i32() {
-                    Some(lhs) => Rational32::from_integer(lhs).partial_cmp(rhs),
-                    None => Some(Ordering::Greater),
-                },
-            },
-            Number::Float(lhs) => match rhs {
-                Number::Fixnum(rhs) => lhs.partial_cmp(&(*rhs as f64)),
-                Number::Float(rhs) => lhs.partial_cmp(rhs),
-                Number::BigInt(rhs) => lhs.partial_cmp(&(**rhs).to_f64().unwrap()),
-                Number::Rational(rhs) => lhs.partial_cmp(&rhs.to_f64().unwrap()),
-            },
-            Number::Rational(lhs) => match rhs {
-                Number::Fixnum(rhs) => {
-                    if rhs.to_i32().is_some() {
-                        lhs.partial_cmp(&Rational32::from_integer(*rhs as i32))
-                    } else {
-                        Some(Ordering::Less)
-                    }
-                }
-                Number::Float(rhs) => lhs.to_f64().unwrap().partial_cmp(rhs),
-                Number::BigInt(rhs) => match rhs.to_i32() {
-                    Some(rhs) => lhs.partial_cmp(&Rational32::from_integer(rhs)),
-                    None => Some(Ordering::Less),
-                },
-                Number::Rational(rhs) => lhs.partial_cmp(rhs),
-            },
+        match (self, rhs) {
+            (Number::Fixnum(lhs), Number::Fixnum(rhs)) => lhs.partial_cmp(rhs),
+            (Number::Float(lhs), Number::Float(rhs)) => lhs.partial_cmp(rhs),
+            (Number::BigInt(lhs), Number::BigInt(rhs)) => lhs.partial_cmp(rhs),
+            (Number::Rational(lhs), Number::Rational(rhs)) => lhs.partial_cmp(rhs),
+            (Number::Float(lhs), _) if !lhs.is_finite() => lhs.partial_cmp(&0_f64),
+            (_, Number::Float(rhs)) if !rhs.is_finite() => 0_f64.partial_cmp(rhs),
+            _ => self.to_big_rational()?.partial_cmp(&rhs.to_big_rational()?),
         }
     }
 }
